@@ -189,7 +189,7 @@ def run(ctx):
               'higher number cannot be recovered)' % (thr[0].children[0].tstr if thr else ''),
               [t.loc for t in thr])
     # R20.4 replayed messages (PossDup, number below the expected one) are refused only when OrigSendingTime is strictly later than SendingTime
-    c19.origsendingtime_rule(ctx, sc, 'R20.4')
+    c19.origsendingtime_rule(ctx, sc, 'R20.4', prog)
     reset_by_value_rule(ctx, prog, 'R20.5')
     from . import c16 as _c16
     _c16.start_numbers_rule(ctx, prog, 'R20.6')
